@@ -623,6 +623,19 @@ class Body:
         finally:
             self._path = None
 
+    def path_tests(self, path):
+        """[(bb, operand term as seen on this path (phis resolved, simplified), values of the edge taken)] for every switch on path"""
+        out = []
+        for k, bb in enumerate(path[:-1]):
+            t = self.term(bb)
+            if t['k'] != 'switch':
+                continue
+            vals = self.switch_edges(bb).get(path[k + 1])
+            if vals is None:
+                continue
+            out.append((bb, simplify(self.origin_on_path(t['on'], path[:k + 1])), vals))
+        return out
+
     def ret_on_path(self, path, local=0):
         """the value the return slot (or `local`) holds at the end of `path`"""
         pos = {bb: i for i, bb in enumerate(path)}
@@ -2028,6 +2041,16 @@ def simplify(t, depth=0):
     if k == 'un':
         a = simplify(t[2], depth + 1)
         return NEVER if a is NEVER else ('un', t[1], a) + tuple(t[3:])
+    if k == 'agg' and len(t) > 2 and isinstance(t[2], list):
+        ops = [simplify(o, depth + 1) for o in t[2]]
+        if any(o is NEVER for o in ops):
+            return NEVER
+        return ('agg', t[1], ops) + tuple(t[3:])
+    if k == 'call' and len(t) > 2 and isinstance(t[2], list):
+        ops = [simplify(o, depth + 1) for o in t[2]]
+        if any(o is NEVER for o in ops):
+            return NEVER
+        return ('call', t[1], ops) + tuple(t[3:])
     return t
 
 
